@@ -240,6 +240,9 @@ CORPUS = [
     ('below-expand1', {'rules': [gen.rule('start', [gen.alt([_r('e'), b])]), gen.rule('e', [gen.alt([_r('x'), _r('y')]), gen.alt([_r('y')])], mods='?'), gen.rule('x', [gen.alt([a])]), gen.rule('y', [gen.alt([a]), gen.alt([a, a]), gen.alt([])])]}, L3, ['ab', 'aab', 'aaab', 'b']),
     ('placeholder-ambig', {'rules': [gen.rule('start', [gen.alt([_r('x'), _r('x')])]), gen.rule('x', [gen.alt([gen.LIT('x'), ['m', [gen.alt([['t', 'B']])]]]), gen.alt([gen.LIT('x'), gen.LIT('x')])])], 'terms': [gen.term('B', ['s', 'b', ''])]},
      L3, ['xx', 'xbx', 'xxx', 'xxxx', 'xbxb']),
+    ('ignore-absorbable-both-sides', {'rules': [gen.rule('start', [gen.alt([['t', 'P'], ['t', 'Q']])], mods='!')],
+                                      'terms': [gen.term('P', ['x', 'p ?', ''], ex=['p', 'p ']), gen.term('Q', ['x', ' ?q', ''], ex=['q', ' q']), gen.term('WS1', ['x', r'\s', ''], ex=[' '])],
+                                      'ignore': ['WS1']}, ('dynamic', 'dynamic_complete'), ['pq', 'p q', 'p  q', 'p   q']),
     ('plain-cyclic', {'rules': [gen.rule('start', [gen.alt([_r('start')]), gen.alt([_r('start'), _r('start')]), gen.alt([a])])]}, L3, ['a', 'aa', 'aaa']),
     ('plain-cyclic-null', {'rules': [gen.rule('start', [gen.alt([_r('n'), _r('start'), _r('n')]), gen.alt([a])]), gen.rule('n', [gen.alt([]), gen.alt([b])])]}, L3, ['a', 'ba', 'bab', 'ab']),
 ]
